@@ -17,4 +17,4 @@ cargo test --offline -j 6 --test seed_demo >> "$L" 2>&1; echo "exit_with=$?" >> 
 rm -f tests/seed_demo.rs
 echo "== suite WITH patch" >> "$L"
 cargo nextest run --workspace --no-fail-fast --tool-config-file pb:/w/lib/nextest.toml --profile pb --test-threads 4 --offline >> "$L" 2>&1; echo "exit_suite=$?" >> "$L"
-grep -E "exit_|Summary|FAIL|TIMEOUT" "$L" | sort | uniq -c | tail -20
+grep -a -E "exit_|Summary|FAIL|TIMEOUT" "$L" | sort | uniq -c | tail -20
